@@ -17,7 +17,9 @@ def run(tier: str, seed: int):
                 'every completion order; n<=3 x placements x duplication x type assignments x request '
                 'orders/duplicates; real SerialRunner slice n<=3')
         e3c = (list(F.fam_e3(F.fam_shapes(1, 3), workers=(1, 2), liveness=False)) + list(F.fam_e3(F.fam_shapes(3, 3, pre=False), workers=(None,)))
-               + list(F.fam_e3(F.fam_variants(2), workers=(2,), liveness=False)))
+               + list(F.fam_e3(F.fam_variants(2), workers=(2,), liveness=False))
+               # default displays on (progress bars, task monitor with a display smaller than the number of workers)
+               + list(F.fam_e3(F.fam_shapes(2, 3, pre=False), workers=(2,), backends=('fork',), liveness=False, monitor=True)))
     else:
         cfgs = (list(F.fam_shapes(1, 5, batch=2)) + list(F.fam_shapes(1, 4, batch=3, bust=(False, True)))
                 + list(F.fam_variants(3, batch=3)) + list(F.fam_variants(2, batch=2, cross=True)))
